@@ -1170,8 +1170,7 @@ func ruleCallee(c *Ctx) *RuleResult {
 // P-SLICE0: a zero step is an error for every array.
 func ruleSliceStepZero(c *Ctx) *RuleResult {
 	r := &RuleResult{Doc: "slice(): every success return follows a successful computeSliceParams; computeSliceParams: every success return follows the false edge of the 'step specified and == 0' test", Floor: 2}
-	sl := c.libFunc("slice")
-	cp := c.libFunc("computeSliceParams")
+	sl, cp := c.sliceFns()
 	// (1) slice
 	calls := callsTo(sl, cp)
 	r.Instances++
@@ -1275,19 +1274,17 @@ func ruleLists(c *Ctx) *RuleResult {
 		p.explore(c.clauseStart(fn, "tLparen"), tokFact{})
 		c.reportPL(r, "args|led|tLparen", p, cl.Pos)
 	}
-	if fn := c.methodOpt("Parser", "parseMultiSelectList"); fn != nil {
+	{
+		fn := c.nodeProducerFn("ASTMultiSelectList", "parseMultiSelectList")
 		p := &plRun{c: c, fn: fn, spec: listSpec(c, "multi-select list", "tComma", "tRbracket", false)}
 		p.explore(fn.Blocks[0], tokFact{})
 		c.reportPL(r, "list|parseMultiSelectList", p, fn.Pos())
-	} else {
-		lost("parseMultiSelectList not found")
 	}
-	if fn := c.methodOpt("Parser", "parseMultiSelectHash"); fn != nil {
+	{
+		fn := c.nodeProducerFn("ASTMultiSelectHash", "parseMultiSelectHash")
 		p := &plRun{c: c, fn: fn, spec: hashSpec(c)}
 		p.explore(fn.Blocks[0], tokFact{})
 		c.reportPL(r, "hash|parseMultiSelectHash", p, fn.Pos())
-	} else {
-		lost("parseMultiSelectHash not found")
 	}
 	return r
 }
@@ -1343,10 +1340,7 @@ func ruleDotRHS(c *Ctx) *RuleResult {
 // P-SLICE: the slice bracket accepts exactly [start]:[stop][:[step]].
 func ruleSliceGrammar(c *Ctx) *RuleResult {
 	r := &RuleResult{Doc: "parseSliceExpression: every path to a success return spells number? : number? (: number?)? ] — at most two colons, no two numbers in a row (loop counter tracked as a small integer)", Floor: 1}
-	fn := c.methodOpt("Parser", "parseSliceExpression")
-	if fn == nil {
-		lost("parseSliceExpression not found")
-	}
+	fn := c.nodeProducerFn("ASTSlice", "parseSliceExpression")
 	p := &plRun{c: c, fn: fn, spec: sliceSpec(c)}
 	p.explore(fn.Blocks[0], tokFact{})
 	c.reportPL(r, "slice|parseSliceExpression", p, fn.Pos())
